@@ -8,8 +8,10 @@ both readings of scope re-activation.
 """
 
 import argparse
+import copy
 import heapq
 import os
+import pickle
 import time
 from fractions import Fraction
 
@@ -380,6 +382,10 @@ class Unparseable(Exception):
     """The generated text is not accepted by the parser (a workload matter, not judged)."""
 
 
+class Raised(Exception):
+    """canonical_form raised something other than its documented refusal."""
+
+
 class Refused(Exception):
     """canonical_form raised for this property (C11/C14 matter): counted by class, not judged."""
 
@@ -435,6 +441,27 @@ def edit_through_api(ast, edit):
     return ast.but(pattern=pat.but(**{field: ev2}))
 
 
+RECALL_OPS = ('consume', 'clear', 'drop_first', 'accumulate', 'overwrite')
+
+
+def scribble_result(parts, op, foreign):
+    """What callers do with a list they were handed: work through it, empty it, add to it."""
+    if op == 'consume':
+        while parts:
+            parts.pop()
+    elif op == 'clear':
+        parts.clear()
+    elif op == 'drop_first':
+        del parts[:1]
+    elif op == 'accumulate':
+        parts += [foreign]
+    elif op == 'overwrite':
+        if parts:
+            parts[0] = foreign
+        else:
+            parts.append(foreign)
+
+
 class Judge:
     """Holds P and its canonical form as monitor objects; checks a prefix."""
 
@@ -442,16 +469,31 @@ class Judge:
         from hpl.rewrite import canonical_form
         try:
             self.ast = build.parser('property').parse(text)
-            if renest:
+            if renest is True:
                 self.ast = rebuild_through_api(self.ast)
-            if edit:
+            elif renest == 'deepcopy':
+                self.ast = copy.deepcopy(self.ast)
+            elif renest == 'pickle':
+                self.ast = pickle.loads(pickle.dumps(self.ast))
+            if edit and edit.get('topic'):
                 self.ast = edit_through_api(self.ast, edit)
+            foreign = build.parser('property').parse(edit['recall']['foreign']) if edit and edit.get('recall') else None
         except Exception as e:
             raise Unparseable(type(e).__name__)
         try:
-            self.parts_ast = canonical_form(self.ast)
+            with core.warnings_filter(edit.get('warnings') if edit else None):
+                self.parts_ast = canonical_form(self.ast)
+                if edit and edit.get('recall'):
+                    # an earlier caller did what it liked with the list it was given (it owns it); the
+                    # canonical form that counts is the one a later call on the same object returns
+                    scribble_result(self.parts_ast, edit['recall']['op'], foreign)
+                    self.parts_ast = canonical_form(self.ast)
         except Exception as e:
-            raise Refused(type(e).__name__)
+            from hpl.errors import HplSanityError
+            if isinstance(e, HplSanityError):
+                raise Refused(type(e).__name__)  # the library declines the property (C11 / C14 matter)
+            # anything else: this property has no canonical form at all
+            raise Raised('%s: %s' % (type(e).__name__, str(e)[:200]))
         self.P = monitor.Prop(self.ast)
         self.parts = [monitor.Prop(p) for p in self.parts_ast]
         # an empty canonical form is a conjunction of nothing: satisfied by every trace
@@ -492,15 +534,32 @@ def run_one(seed, cfg, stats):
     text = gen.render_property(pdesc)
     shape = (pdesc['scope'][0], pdesc['pattern'][0], len(topics_of(pdesc['pattern'][1])), len(topics_of(pdesc['pattern'][2])),
              len(topics_of(pdesc['scope'][2])), pdesc['pattern'][3] is not None)
+    # how the property object was obtained: parsed, re-nested through the API, deep-copied, unpickled
     renest = sim.coin('renest', 0.25)
+    if not renest and sim.coin('obtained', 0.12):
+        renest = sim.pick('obtained_how', ('deepcopy', 'pickle'))
+    count('obtained_%s' % ('parsed' if renest is False else 'api' if renest is True else renest))
     edit = None
     if sim.coin('edit', 0.2):
         spare = [t for t in topics if t not in topics_of(pdesc['scope'][1]) + topics_of(pdesc['scope'][2]) + topics_of(pdesc['pattern'][1]) + topics_of(pdesc['pattern'][2])]
         if spare:
             edit = {'topic': sim.pick('edit_topic', spare), 'pred': sim.pick('edit_pred', (None, '{ x > 0 }', '{ ok }', '{ y in {0, 1} }')),
                     'where': sim.pick('edit_where', ('split', 'split', 'other'))}
+    if sim.coin('recall', 0.12):
+        # call history on one property object: canonical_form, the caller edits ITS list, canonical_form again
+        edit = dict(edit or {})
+        edit['recall'] = {'op': sim.pick('recall_op', RECALL_OPS), 'foreign': 'globally: no %s' % sim.pick('recall_topic', topics)}
+        count('recall_' + edit['recall']['op'])
+    if sim.coin('warnings_error', 0.15):
+        edit = dict(edit or {})
+        edit['warnings'] = 'error'  # python -W error / PYTHONWARNINGS=error around the library call
+        count('warnings_filter_error')
     try:
         judge = Judge(text, renest, edit)
+    except Raised as e:
+        count('runs')
+        return ({'class': 'raises', 'detail': 'canonical_form raised %s' % e, 'text': text, 'renest': renest, 'edit': edit, 'trace': [], 'bus_log': [], 'reading': None},
+                {'text': text, 'shape': shape, 'digest': sim.digest(), 'refused': True})
     except Unparseable as e:
         count('generated_text_rejected_by_parser')
         return None, {'text': text, 'shape': shape, 'digest': sim.digest(), 'refused': True}
@@ -525,7 +584,7 @@ def run_one(seed, cfg, stats):
             viol[0] = (r, len(bus.trace))
             bus.stop = True
 
-    bus = simulate(sim, pdesc, cfg, on_deliver, extra_topic=edit['topic'] if edit else None, topics=topics)
+    bus = simulate(sim, pdesc, cfg, on_deliver, extra_topic=edit.get('topic') if edit else None, topics=topics)
     if viol[0] is None:
         r = judge.check(bus.trace)  # at shutdown
         count('prefixes_checked')
@@ -600,6 +659,8 @@ def worker(job):
 
 
 def minimise(v):
+    if v['class'] == 'raises':
+        return v
     text = v['text']
     trace = trace_from_json(v['trace'])
 
@@ -628,6 +689,14 @@ def make_replay(v):
 
 
 def replay(doc):
+    if doc.get('class') == 'raises':
+        try:
+            Judge(doc['text'], doc.get('renest', False), doc.get('edit'))
+        except Raised as e:
+            return {'class': 'raises', 'detail': 'canonical_form raised %s' % e}
+        except (Refused, Unparseable):
+            return None
+        return None
     r, n = judge_trace(doc['text'], trace_from_json(doc['trace']), doc.get('renest', False), doc.get('edit'))
     if r is None:
         return None
@@ -688,7 +757,7 @@ def main(argv):
         if sig in seen or len(new) >= limit:
             continue
         seen.add(sig)
-        path = core.write_replay(PROP, 'not_equivalent_%d' % v['run_index'], make_replay(mv))
+        path = core.write_replay(PROP, '%s_%d' % (mv['class'].replace('-', '_'), v['run_index']), make_replay(mv))
         hit = next((k for k in known if k.get('text') == mv['text']), None)
         if hit is not None:
             known_hits.append(hit.get('what', mv['text']))
@@ -723,6 +792,8 @@ def main(argv):
         'generated_texts_rejected_by_parser': stats.get('generated_text_rejected_by_parser', 0),
         'shapes_with_both_verdicts_observed': both,
         'fault_kinds_fired': {k[6:]: v for k, v in sorted(stats.items()) if k.startswith('fault_')},
+        'property_object_obtained_by': {k[9:]: v for k, v in sorted(stats.items()) if k.startswith('obtained_')},
+        'caller_edits_of_an_earlier_result_before_a_second_call': {k[7:]: v for k, v in sorted(stats.items()) if k.startswith('recall_')},
         'distinct_fault_kind_sets_per_run': len(fault_sets),
         'reactive_responses': stats.get('reactive_responses', 0),
         'responses_relative_to_deadline': {k[16:]: v for k, v in sorted(stats.items()) if k.startswith('deadline_offset_')},
